@@ -26,6 +26,7 @@ type c07Params struct {
 	ChanCap  int  // 0 = real capacity (32); 2 = capacity-scaled abstraction
 	Probe    bool // every handler calls the client's query API (Me, Connected, StateTracker, String) while it runs
 	Tracking bool // state tracking on; the backlog consists of JOINs of other users
+	Dead     bool // with Stall: the server never reads again (a dead peer), the blocked write only ends when the client closes its socket
 	OnConn   bool // the busy handler (gated / sending) is the CONNECTED handler, started by a welcome line, not the PRIVMSG handler
 	LongQuit bool // a user task writes a 5000-byte line and QUIT just before the cause (the socket buffer is mid-line at teardown)
 }
@@ -44,12 +45,15 @@ func (p c07Params) name() string {
 	if p.OnConn {
 		n += "/on-connected"
 	}
+	if p.Dead {
+		n += "/dead-peer"
+	}
 	return n
 }
 
 func (p c07Params) params() map[string]interface{} {
 	return map[string]interface{}{"inbound_backlog": p.Backlog, "segs": p.Segs, "mode": p.Mode, "emit": p.Emit, "stall": p.Stall,
-		"cause": p.Cause, "floodctl": p.FloodCtl, "user_send": p.UserSend, "chancap": p.ChanCap, "probe": p.Probe, "tracking": p.Tracking, "on_connected": p.OnConn, "longquit": p.LongQuit}
+		"cause": p.Cause, "floodctl": p.FloodCtl, "user_send": p.UserSend, "chancap": p.ChanCap, "probe": p.Probe, "tracking": p.Tracking, "on_connected": p.OnConn, "longquit": p.LongQuit, "dead_peer": p.Dead}
 }
 
 func c07Scenario(p c07Params) *explore.Scenario {
@@ -167,7 +171,7 @@ func c07Scenario(p c07Params) *explore.Scenario {
 			cancel()
 		}
 		vx.Quiesce()
-		if p.Stall {
+		if p.Stall && !p.Dead {
 			// the server was only slow: it reads again. (A write that is blocked on the
 			// socket cannot notice a context cancellation; what is required is that the
 			// teardown completes once the write has completed or failed.)
@@ -505,6 +509,18 @@ func c07Jobs(tier string) []Job {
 			add(c07Params{Backlog: bl, Segs: "one", Mode: "gated", Cause: cs, Probe: true, Tracking: true}, b1, 30+bl)
 		}
 		add(c07Params{Backlog: 3, Segs: "one", Mode: "gated", Cause: cs, Probe: true, Tracking: true, ChanCap: 2}, b2, 20)
+	}
+	// a dead peer: the server stops reading for good. Close, EOF (a half-closed peer) and a read error close the
+	// client's socket, which ends the blocked write; a cancelled context cannot (see 9.4), so it is left out here
+	for _, cs := range causes {
+		if cs == "cancel" || cs == "writeerr" {
+			continue
+		}
+		for _, em := range []int{3, 7} {
+			add(c07Params{Backlog: 1, Segs: "one", Mode: "sending", Emit: em, Stall: true, Dead: true, Cause: cs, ChanCap: 2}, b2, 20)
+		}
+		add(c07Params{Backlog: 1, Segs: "one", Mode: "sending", Emit: 70, Stall: true, Dead: true, Cause: cs}, []explore.Budget{{0, 0}, {1, 0}}, 30)
+		add(c07Params{Backlog: 2, Segs: "one", Mode: "idle", UserSend: 5, Stall: true, Dead: true, Cause: cs, ChanCap: 2}, b2, 20)
 	}
 	// the busy handler is the CONNECTED handler (dispatched from inside the built-in 001 handler)
 	for _, cs := range causes {
